@@ -18,6 +18,7 @@ def opening_stream(ctx):
     for i in range(6 if quick else 60):
         rs = rng.choice([1, 3, 20])
         bases.append(prefix.small_history(rng, rs, 7 if quick else 12))
+    bases = streams.replay_override(ctx, "history", bases)
     ph1 = hist.run_many([dict(h, calls=h["calls"] + [{"op": "nop", "obs": ["tape"]}]) for h in bases])
     comps = []
     for h, (res, rc, err) in zip(bases, ph1):
